@@ -12,7 +12,7 @@
                 scalar's range is not the scalar, the text of an accessor's range is not that piece of the scalar
      known      the decidable classes of the recorded findings; they are functions of the source facts
                 (Src/SrcPositions.v) and become empty when the corresponding repair is in the source. *)
-From Verif Require Import Base.Bytes Model.Positions Src.SrcPositions.
+From Verif Require Import Base.Bytes Base.Wire Model.Positions Src.SrcPositions.
 Local Open Scope Z_scope.
 
 Definition params : pos_params :=
@@ -23,7 +23,9 @@ Definition params : pos_params :=
 Record wnode := { wn_line : Z; wn_col : Z; wn_kind : N; wn_style : N; wn_tag : string; wn_value : string;
                   wn_last : Z; wn_anch : bool }.
 Record wdoc := { wd_name : string; wd_text : string; wd_nodes : list wnode }.
-Record wrange := { wr_what : string; wr_env : string; wr_node : Z; wr_b : hpos; wr_e : hpos }.
+(* what an accessor range is the range OF: the key or index the evaluator resolved *)
+Inductive accd := ANone | AKey (k : string) | AIdx (i : Z).
+Record wrange := { wr_what : string; wr_env : string; wr_node : Z; wr_b : hpos; wr_e : hpos; wr_acc : accd }.
 
 Inductive case := CCrash | CCase (docs : list wdoc) (ranges : list wrange).
 
@@ -127,6 +129,61 @@ Definition kc_zero_width (text : string) (h : hpos) : bool := zero_width_before 
 Definition pos_known (text : string) (h : hpos) : bool :=
   kc_past_eol text h || kc_zero_width text h.
 
+(* ---- the text under the range of an accessor spells that accessor: the bare name, the name after a dot, the
+        name in brackets (bare, or quoted with backslash-escaped quotes), a decimal index in brackets; an
+        unterminated subscript lacks the closing quote / bracket ---- *)
+Definition strip_prefix (p s : string) : option string :=
+  if sprefix p s then Some (sdrop (String.length p) s) else None.
+
+Fixpoint strip_last (c : ascii) (s : string) : string :=
+  match s with
+  | EmptyString => EmptyString
+  | String a r => match r with
+                  | EmptyString => if Ascii.eqb a c then EmptyString else s
+                  | String _ _ => String a (strip_last c r)
+                  end
+  end.
+
+Definition bslash : ascii := ascii_of_N 92.
+Definition dquote : ascii := ascii_of_N 34.
+
+Fixpoint unescape_q (s : string) : string :=
+  match s with
+  | EmptyString => EmptyString
+  | String a r =>
+      match r with
+      | String b r' => if Ascii.eqb a bslash && Ascii.eqb b dquote then String dquote (unescape_q r')
+                       else String a (unescape_q r)
+      | EmptyString => s
+      end
+  end.
+
+Definition spelled (sl : string) (a : accd) : bool :=
+  match a with
+  | ANone => true
+  | AKey EmptyString => true
+  | AKey k =>
+      String.eqb sl k || String.eqb sl (String "."%char k)
+      || match strip_prefix (String "["%char (String dquote EmptyString)) sl with
+         | Some body => String.eqb (unescape_q (strip_last dquote (strip_last "]"%char body))) k
+         | None => false
+         end
+      || match strip_prefix "[" sl with
+         | Some body => String.eqb (strip_last "]"%char body) k
+         | None => false
+         end
+  | AIdx i =>
+      match strip_prefix "[" sl with
+      | Some body =>
+          let ds := strip_last "]"%char body in
+          match ds, dec_digits ds 0 with
+          | String _ _, Some n => Z.of_N n =? i
+          | _, _ => false
+          end
+      | None => false
+      end
+  end.
+
 (* (failure of the slice requirement, is it inside a known class) *)
 Definition slice_check (text : string) (what : string) (pn : option pnode) (r : wrange) : bool * bool :=
   match pn with
@@ -143,7 +200,8 @@ Definition slice_check (text : string) (what : string) (pn : option pnode) (r : 
         | Some nb =>
             let st := p_byte (wr_b r) - nb in
             let en := p_byte (wr_e r) - nb in
-            (negb ((0 <=? st) && (st <=? en) && (en <=? slenZ v)) || negb (String.eqb sl (substr st en v)),
+            (negb ((0 <=? st) && (st <=? en) && (en <=? slenZ v)) || negb (String.eqb sl (substr st en v))
+             || negb (spelled sl (wr_acc r)),
              wn_anch w || negb loc)
         | None => (true, false)
         end
@@ -205,7 +263,25 @@ Definition spec_range (ds : list pdoc) (r : wrange) : bool * bool :=
                 else pos_known text (wr_e r) || srk in
       let forder := (p_byte (wr_e r) <? p_byte (wr_b r)) || (slenZ text <? p_byte (wr_e r)) || (p_byte (wr_b r) <? 0) in
       let excused := (fb && kb) || (fe && ke) in
-      let (fs, ks) := slice_check text (wr_what r) pn r in
+      (* an accessor range the harness could not attach to a node (bases): the plain scalar that contains it;
+         if there is none, only the spelling is required, excused when the document has a multi-line or
+         anchored plain scalar it may belong to *)
+      let pn_acc := match pn with
+                    | Some _ => pn
+                    | None => if isacc then enclosing_scalar d r else None
+                    end in
+      let (fs, ks) :=
+        match pn_acc with
+        | Some _ => slice_check text (wr_what r) pn_acc r
+        | None =>
+            if isacc
+            then (negb (spelled (substr (p_byte (wr_b r)) (p_byte (wr_e r)) text) (wr_acc r)),
+                  existsb (fun q => let w := pn_w q in
+                                    (wn_kind w =? 8)%N && (wn_style w =? 0)%N
+                                    && (wn_anch w || negb (located text (wn_line w) (wn_col w) (wn_value w))))
+                          (pd_nodes d))
+            else slice_check text (wr_what r) pn r
+        end in
       (fb || fe || forder || fs,
        (negb fb || kb) && (negb fe || ke) && (negb forder || excused) && (negb fs || ks || excused))
   end.
@@ -241,7 +317,6 @@ Definition nontrivial (c : case) : bool :=
   end.
 
 (* ---- wire format ---- *)
-From Verif Require Import Base.Wire.
 
 Definition dec_node (x : sexp) : option wnode :=
   match x with
@@ -275,13 +350,28 @@ Definition dec_pos (l c b : sexp) : option hpos :=
   | _, _, _ => None
   end.
 
+Definition dec_acc (x : sexp) : option accd :=
+  match x with
+  | SList [Atom "k"; k] => match atom_str k with Some k => Some (AKey k) | None => None end
+  | SList [Atom "i"; i] => match atom_Z i with Some i => Some (AIdx i) | None => None end
+  | _ => None
+  end.
+
+Definition dec_range_with (what : string) (env node bl bc bb el ec eb : sexp) (a : accd) : option wrange :=
+  match atom_str env, atom_Z node, dec_pos bl bc bb, dec_pos el ec eb with
+  | Some env, Some node, Some b, Some e =>
+      Some {| wr_what := what; wr_env := env; wr_node := node; wr_b := b; wr_e := e; wr_acc := a |}
+  | _, _, _, _ => None
+  end.
+
 Definition dec_range (x : sexp) : option wrange :=
   match x with
   | SList [Atom "r"; Atom what; env; node; bl; bc; bb; el; ec; eb] =>
-      match atom_str env, atom_Z node, dec_pos bl bc bb, dec_pos el ec eb with
-      | Some env, Some node, Some b, Some e =>
-          Some {| wr_what := what; wr_env := env; wr_node := node; wr_b := b; wr_e := e |}
-      | _, _, _, _ => None
+      dec_range_with what env node bl bc bb el ec eb ANone
+  | SList [Atom "r"; Atom what; env; node; bl; bc; bb; el; ec; eb; a] =>
+      match dec_acc a with
+      | Some a => dec_range_with what env node bl bc bb el ec eb a
+      | None => None
       end
   | _ => None
   end.
